@@ -344,8 +344,39 @@ def machine(record, focus=None):
     return StoreMachine
 
 
+def long_enum(tier):
+    for t in ('int', 'obj', 'float'):
+        for via in ('store', 'manager'):
+            steps = []
+            n = 1300
+            for i in range(n):
+                steps.append(['add', 'T', i, 0])
+                steps.append(['set', 'T', i, i % 5])
+            for i in range(1100):
+                steps.append(['del', 'T', i])
+            for i in (5, 1030, 0, 700):
+                steps.append(['add', 'T', i, 1])
+                steps.append(['set', 'T', i, (i + 1) % 5])
+            steps.append(['get', 'T', 1250])
+            yield {'config': {'type': t, 'default': 0, 'via': via}, 'steps': steps, 'sparse_checks': True}
+
+
+def replay_long(case):
+    """as replay(), but the all-slots re-read after every step (quadratic) is done every 100 steps only"""
+    sim = Sim(case['config'])
+    full = sim.check_all
+    for n, op in enumerate(case['steps']):
+        sim.check_all = full if (n % 100 == 0 or n >= len(case['steps']) - 12) else (lambda: None)
+        sim.step(op)
+    sim.check_all = full
+    sim.check_all()
+    return {'nontrivial': True, 'labels': ['long-history', 'type:' + case['config']['type'], 'via:' + case['config']['via']]}
+
+
 def subs(tier):
     return [
+        Sub('long', replay_long, enum=long_enum,
+            doc='a long history: 1300 keys, the 1100 lowest deleted in order, low indices re-added while newer keys are alive'),
         Sub('mapper', replay, machine=lambda record: machine(record, 'mapper'), examples={'quick': 500, 'thorough': 30000}, steps=40,
             doc='histories concentrated on group-index maps: several live maps with interleaved add_map / get_map / flush'),
         Sub('machine', replay, machine=machine, examples={'quick': 1500, 'thorough': 60000}, steps=50,
